@@ -13,6 +13,7 @@ FRAGMENTS = [
     ("FPStencil", "gen_fp"),
     ("Options", "gen_options"),
     ("MainProgram", "gen_main"),
+    ("Ctors", "gen_ctor"),
 ]
 
 
